@@ -123,6 +123,19 @@ var (
 	verbs      = []string{"GET", "POST", "PUT", "DELETE"}
 	verbAnn    = map[string]string{"GET": "GetMapping", "POST": "PostMapping", "PUT": "PutMapping", "DELETE": "DeleteMapping"}
 
+	// paths of the URI-template family: template variables, patterns and property placeholders at the beginning,
+	// at the end or as the whole of a path, with and without leading / trailing slash, and paths that begin and
+	// end with other bracket characters; all of them are concatenated as written like any other path
+	templateWords = []string{"{id}", "{id}/lines/{line}", "{id}/edit", "items/{id}", "/{id}/", "{id}/", "/{tenant}/{id}", "{name}.json", "{id:[0-9]+}",
+		"/{name:[a-z]+}/{id:[0-9]+}", "${api.orders}", "${api.root}/items", "/{*rest}", "{*rest}", "/**", "*.do", "/Orders({id})", "(all)", "[x]", "/value", "path", "/orders/"}
+	// ... with a comma inside (quantified patterns, matrix-like lists); not drawn for the sub-check cli, see genCaseOpt
+	commaWords        = []string{"{id:[0-9]{1,3}}", "/{id:[0-9]{2,}}", "/in/{a},{b}", "{a},{b}", "/list,all", "{id:[0-9]{1,3}}/lines"}
+	baseTemplateWords = []string{"/tenants/{tenant}", "{tenant}", "{tenant}/", "/api/{version}/", "/{a}/{b}", "${api.base}", "${api.base}/v1", "{region}/shops/{shop}", "/api/*", "(internal)", "/{tenant:[a-z]+}"}
+	baseCommaWords    = []string{"{tenant:[a-z]{2,8}}", "/{tenant:[a-z]{2,8}}/", "/eu,us"}
+	segLiterals       = []string{"orders", "lines", "edit", "v1", "a-b_c.json", "value", "path", "caf\u00e9"}
+	segVarNames       = []string{"id", "name", "line", "key", "part", "rest"}
+	segSuffixes       = []string{".json", "-raw", "_v2", ":sync", "*"}
+
 	// annotations a handler (or any method) carries next to its mapping annotation; none of them is a mapping
 	methodExtras = []string{"@ResponseBody", "@ResponseStatus(HttpStatus.CREATED)", "@PreAuthorize(\"hasRole('ADMIN')\")",
 		"@ApiOperation(value = \"/doc/path\", httpMethod = \"PATCH\")", "@Transactional", "@Override", "@Deprecated", "@CrossOrigin(\"/origin\")",
@@ -152,6 +165,92 @@ func someOf(t *rapid.T, pool []string, max int, label string) []string {
 	return out
 }
 
+// composedPath builds a path of 1-3 segments, each a literal, a template variable (plain, with a pattern, a
+// property placeholder) or a mix of both; with or without leading and trailing slash. Every draw shrinks to
+// the plain variant: one literal segment behind a slash.
+func composedPath(t *rapid.T, commas bool, label string) string {
+	nVars := 0
+	variable := func() string {
+		name := segVarNames[nVars%len(segVarNames)]
+		nVars++
+		max := 5
+		if commas {
+			max = 6
+		}
+		switch rapid.IntRange(0, max).Draw(t, label+"VarForm") {
+		case 2:
+			return "{" + name + ":[0-9]+}"
+		case 3:
+			return "{" + name + ":.+}"
+		case 4:
+			return "${app." + name + "}"
+		case 5:
+			return "{*" + name + "}"
+		case 6:
+			return "{" + name + ":[a-z]{1,3}}"
+		}
+		return "{" + name + "}"
+	}
+	var segs []string
+	for i, n := 0, rapid.IntRange(1, 3).Draw(t, label+"Segs"); i < n; i++ {
+		switch rapid.IntRange(0, 7).Draw(t, label+"SegKind") {
+		case 0, 1:
+			segs = append(segs, rapid.SampledFrom(segLiterals).Draw(t, label+"Literal"))
+		case 2, 3, 4:
+			segs = append(segs, variable())
+		case 5:
+			segs = append(segs, variable()+rapid.SampledFrom(segSuffixes).Draw(t, label+"Suffix"))
+		case 6:
+			segs = append(segs, rapid.SampledFrom(segLiterals).Draw(t, label+"Literal")+"-"+variable())
+		case 7:
+			seps := []string{"-", ".", "_", ";"}
+			if commas {
+				seps = append(seps, ",")
+			}
+			first := variable()
+			segs = append(segs, first+rapid.SampledFrom(seps).Draw(t, label+"Sep")+variable())
+		}
+	}
+	p := strings.Join(segs, "/")
+	if rapid.IntRange(0, 2).Draw(t, label+"NoLeadingSlash") < 2 {
+		p = "/" + p
+	}
+	if rapid.IntRange(0, 3).Draw(t, label+"TrailingSlash") == 3 {
+		p += "/"
+	}
+	return p
+}
+
+// genPath draws a method-level path: from the plain pool, from the spellings of the template family, or composed
+func genPath(t *rapid.T, commas bool) string {
+	switch rapid.IntRange(0, 6).Draw(t, "pathFamily") {
+	case 3, 4:
+		pool := templateWords
+		if commas {
+			pool = append(append([]string{}, templateWords...), commaWords...)
+		}
+		return rapid.SampledFrom(pool).Draw(t, "templatePath")
+	case 5, 6:
+		return composedPath(t, commas, "path")
+	}
+	return rapid.SampledFrom(pathWords).Draw(t, "path")
+}
+
+// genBase draws a class-level base path the same way
+func genBase(t *rapid.T, commas bool) string {
+	switch rapid.IntRange(0, 5).Draw(t, "baseFamily") {
+	case 4:
+		pool := baseTemplateWords
+		if commas {
+			pool = append(append([]string{}, baseTemplateWords...), baseCommaWords...)
+		}
+		return rapid.SampledFrom(pool).Draw(t, "templateBase")
+	case 5:
+		return composedPath(t, commas, "base")
+	}
+	return rapid.SampledFrom(baseWords).Draw(t, "base")
+}
+
 func isBodyKind(k string) bool {
 	switch k {
 	case "body", "validBody", "bodyValid", "bodyRequired", "bodyThenFinal", "finalThenBody":
@@ -160,7 +259,7 @@ func isBodyKind(k string) bool {
 	return false
 }
 
-func genMethod(t *rapid.T, name string, inController bool) Method {
+func genMethod(t *rapid.T, name string, inController bool, commas bool) Method {
 	m := Method{Name: name, Ret: rapid.SampledFrom(retTypes).Draw(t, "ret")}
 	switch rapid.IntRange(0, 12).Draw(t, "form") {
 	case 12:
@@ -187,7 +286,7 @@ func genMethod(t *rapid.T, name string, inController bool) Method {
 	if m.isHandler() {
 		m.Verb = rapid.SampledFrom(verbs).Draw(t, "verb")
 		if m.Form != "nopath" {
-			m.Path = rapid.SampledFrom(pathWords).Draw(t, "path")
+			m.Path = genPath(t, commas)
 		}
 		switch m.Form {
 		case "requestValueFirst", "requestMethodFirst":
@@ -288,7 +387,12 @@ func signature(m Method) string {
 	return m.Name + "(" + strings.Join(ts, ",") + ")"
 }
 
-func genCase(t *rapid.T) Case {
+func genCase(t *rapid.T) Case { return genCaseOpt(t, true) }
+
+// genCaseOpt: commas = paths may contain a comma. The sub-check cli draws none: it also reads api.csv, which
+// coca writes as a table with "," as column separator and without quoting, so a URI with a comma has no
+// defined row there (and api.csv is not part of the property statement).
+func genCaseOpt(t *rapid.T, commas bool) Case {
 	n := rapid.IntRange(1, 6).Draw(t, "nClasses")
 	var c Case
 	used := map[string]bool{}
@@ -328,7 +432,7 @@ func genCase(t *rapid.T) Case {
 				cl.BasePair = rapid.SampledFrom(extraPairs).Draw(t, "basePair")
 			}
 			if cl.BaseForm == "shorthand" || cl.BaseForm == "valuePair" {
-				cl.Base = rapid.SampledFrom(baseWords).Draw(t, "base")
+				cl.Base = genBase(t, commas)
 			}
 			if cl.BaseForm == "valuePair" && rarely(t, 1, "hasBasePair") {
 				cl.BasePair = rapid.SampledFrom(extraPairs).Draw(t, "basePair")
@@ -348,7 +452,7 @@ func genCase(t *rapid.T) Case {
 			}
 			if rarely(t, 3, "baseOfNonController") {
 				cl.BaseForm = rapid.SampledFrom([]string{"shorthand", "valuePair"}).Draw(t, "baseFormNC")
-				cl.Base = rapid.SampledFrom(baseWords).Draw(t, "base")
+				cl.Base = genBase(t, commas)
 			}
 		}
 		cl.Pre = someOf(t, typeExtras, 1, "pre")
@@ -385,7 +489,7 @@ func genCase(t *rapid.T) Case {
 		nm := rapid.IntRange(0, 5).Draw(t, "nMethods")
 		sigs := map[string]bool{}
 		for j := 0; j < nm; j++ {
-			m := genMethod(t, fmt.Sprintf("%s%d", []string{"find", "save", "remove", "list", "helper", "update"}[j], j), cl.Controller != "")
+			m := genMethod(t, fmt.Sprintf("%s%d", []string{"find", "save", "remove", "list", "helper", "update"}[j], j), cl.Controller != "", commas)
 			if j > 0 && rarely(t, 4, "overload") {
 				// an overload of an earlier method of the class (another parameter list)
 				m.Name = cl.Methods[rapid.IntRange(0, j-1).Draw(t, "overloadOf")].Name
@@ -455,7 +559,7 @@ func genCase(t *rapid.T) Case {
 }
 
 func genCliCase(t *rapid.T) Case {
-	c := genCase(t)
+	c := genCaseOpt(t, false)
 	for _, f := range []string{"-c", "-s", "-a", "-r", "again"} {
 		if rarely(t, 2, "flag"+f) {
 			c.Flags = append(c.Flags, f)
@@ -1190,6 +1294,31 @@ func mark(labels map[string]bool, cond bool, label string) {
 	}
 }
 
+// pathLabels names the shapes of the URI-template family a path (or base path) shows
+func pathLabels(p string) []string {
+	var out []string
+	add := func(cond bool, l string) {
+		if cond {
+			out = append(out, l)
+		}
+	}
+	open, shut := strings.HasPrefix(p, "{"), strings.HasSuffix(p, "}")
+	add(strings.Contains(p, "{") && !strings.Contains(p, "${"), "with_template_variable")
+	add(open && shut, "wrapped_in_braces")
+	add(open && shut && strings.Count(p, "{") == 1 && !strings.Contains(p, ":"), "is_one_template_variable")
+	add(open && !shut, "begins_with_brace_only")
+	add(!open && shut && !strings.HasPrefix(p, "/") && !strings.HasPrefix(p, "$"), "ends_with_brace_no_leading_slash")
+	add(strings.HasPrefix(p, "/") && shut, "leading_slash_ends_with_brace")
+	add(strings.Contains(p, ":"), "variable_with_pattern")
+	add(strings.Contains(p, ","), "with_comma")
+	add(strings.Contains(p, "${"), "property_placeholder")
+	add(strings.Contains(p, "{*") || strings.Contains(p, "*"), "wildcard")
+	add(len(p) > 1 && strings.HasSuffix(p, "/"), "trailing_slash")
+	add(strings.HasPrefix(p, "(") || strings.HasPrefix(p, "["), "begins_with_other_bracket")
+	add(p != "" && !strings.HasPrefix(p, "/"), "no_leading_slash")
+	return out
+}
+
 func classify(c Case) pbt.Verdict {
 	v := pbt.Verdict{}
 	withBase, withoutBase, nonCtl := 0, 0, 0
@@ -1252,6 +1381,12 @@ func classify(c Case) pbt.Verdict {
 				mark(labels, m.VerbForm != "", "verb_"+m.VerbForm)
 				mark(labels, m.Parens, "mapping_empty_parens")
 				mark(labels, m.Path == "" && m.Form != "nopath", "empty_path_string")
+				for _, l := range pathLabels(m.Path) {
+					labels["path_"+l] = true
+					if l == "wrapped_in_braces" {
+						labels["path_wrapped_in_braces_"+m.Form] = true
+					}
+				}
 				mark(labels, m.Mods != "", "handler_not_plain_public")
 				mark(labels, m.Body != "", "handler_body_"+m.Body)
 				mark(labels, m.SameLine, "annotations_and_signature_on_one_line")
@@ -1274,6 +1409,11 @@ func classify(c Case) pbt.Verdict {
 		}
 		for _, n := range uris {
 			mark(labels, n > 1, "two_handlers_same_verb_and_path")
+		}
+		if cl.Controller != "" {
+			for _, l := range pathLabels(cl.Base) {
+				labels["base_path_"+l] = true
+			}
 		}
 		mark(labels, cl.Kind == "interface", "interface_with_mapping_annotations")
 		mark(labels, cl.Controller == "" && cl.Stereotype != "" && handlers > 0, "stereotyped_non_controller_with_mappings")
@@ -1317,8 +1457,9 @@ func classify(c Case) pbt.Verdict {
 
 func init() {
 	pbt.SetProperty("C12")
-	pbt.Describe("rapid-generated Spring-style projects of 1-6 types, one public type per file (flat directory or mNN/src/main/java/<package>/ layout), any file order, now and then a class of the unnamed package: controllers (@RestController / @Controller, bare or with a bean name argument, then optionally @RequestMapping(\"/b\"), @RequestMapping(value = \"/b\" [, produces = ...]) or a class-level mapping that gives no path), classes without controller annotation (none, @Service, @Component, @ControllerAdvice, @RestControllerAdvice, @FeignClient ..., now and then with a class-level @RequestMapping) and interfaces whose methods nevertheless carry mapping annotations, handlers with @Get/@Post/@Put/@DeleteMapping with path (also \"\" and a path without leading slash), without path (bare, (), or only produces=/consumes=... pairs) and with value = \"/p\", @RequestMapping(value = \"/p\", method = RequestMethod.X | X by static import | {RequestMethod.X}) with the pairs in either order and a further pair first, in the middle or last, 0-4 parameters (plain, @PathVariable with and without name, @RequestParam(...), @RequestHeader, @Valid, @RequestBody with and without @Valid / final / (required = false) in both orders, at any position), further annotations before and after the mapping annotation (@ResponseBody, @ResponseStatus(..), @PreAuthorize(..), @ApiOperation(value = ..) ...), further type annotations before, between and after controller annotation and class-level mapping, non-handler methods (plain, @Override, @MessageMapping & co., now and then with a @RequestBody parameter) and annotated fields interleaved, overloaded handler names, two handlers with the same verb and path, handler bodies with calls, lambdas, an anonymous class or annotated locals, extends/implements clauses (also of an interface of the project), a second package-private class before or after the controller in its file, optional field and constructor, modifiers other than public, annotations and signature on one line, two layouts. Every file is validated with the shipped parser (a rejection aborts the run as a harness bug). Oracle: list of (verb, base+path, body type without blanks, package, class, method) by construction, compared as a multiset with JavaApiApp.AnalysisPath fed by the identifier and full passes as cmd/api.go does (sub-check api) and with coca_reporter/apis.json of `coca analysis` + `coca api -f [-c] [-s] [-a PREFIX] [-r PKG]` (sub-check cli; api.csv must show the entries of apis.json row by row, those under PREFIX with -a); metamorphic clause: the entries of every controller are identical in the whole project, alone, and in random sub-projects with other file orders; sub-check seq: 2-4 scans of the whole project and of sub-projects one after the other in one process without resetting package state: every scan returns the list of the project scanned and no list returned earlier changes; FilterApiByPrefix on the returned list keeps exactly the entries under the prefix, everything for the empty prefix, and does not change the list it is given. Non-trivial = at least one controller with and one without class-level base path in the project; distinct = hash of the description.",
-		"not generated (ambiguous expected value or outside the quantifier): bare class-level @RequestMapping, method-level @RequestMapping without method=, controller annotation after the class-level mapping, nested and local classes, handlers inherited from interfaces, several @RequestBody parameters, path= instead of value=, array-valued paths, several verbs in method={..}, path constants and concatenations, fully qualified annotation names",
+	pbt.Describe("rapid-generated Spring-style projects of 1-6 types, one public type per file (flat directory or mNN/src/main/java/<package>/ layout), any file order, now and then a class of the unnamed package: controllers (@RestController / @Controller, bare or with a bean name argument, then optionally @RequestMapping(\"/b\"), @RequestMapping(value = \"/b\" [, produces = ...]) or a class-level mapping that gives no path), classes without controller annotation (none, @Service, @Component, @ControllerAdvice, @RestControllerAdvice, @FeignClient ..., now and then with a class-level @RequestMapping) and interfaces whose methods nevertheless carry mapping annotations, handlers with @Get/@Post/@Put/@DeleteMapping with path (also \"\" and a path without leading slash; paths and base paths drawn from a plain pool, from spellings of the URI-template family - \"{id}\", \"{id}/lines/{line}\", \"{id}/edit\", \"items/{id}\", \"{id:[0-9]+}\", \"{id:[0-9]{1,3}}\", \"{a},{b}\", \"${api.orders}\", \"{*rest}\", \"/**\", \"/Orders({id})\", \"(all)\", \"[x]\", trailing slash - or composed of 1-3 segments, each a literal, a template variable (plain, with pattern, catch-all, ${property} placeholder) or a mix of both, with or without leading and trailing slash, in every mapping form and at class level), without path (bare, (), or only produces=/consumes=... pairs) and with value = \"/p\", @RequestMapping(value = \"/p\", method = RequestMethod.X | X by static import | {RequestMethod.X}) with the pairs in either order and a further pair first, in the middle or last, 0-4 parameters (plain, @PathVariable with and without name, @RequestParam(...), @RequestHeader, @Valid, @RequestBody with and without @Valid / final / (required = false) in both orders, at any position), further annotations before and after the mapping annotation (@ResponseBody, @ResponseStatus(..), @PreAuthorize(..), @ApiOperation(value = ..) ...), further type annotations before, between and after controller annotation and class-level mapping, non-handler methods (plain, @Override, @MessageMapping & co., now and then with a @RequestBody parameter) and annotated fields interleaved, overloaded handler names, two handlers with the same verb and path, handler bodies with calls, lambdas, an anonymous class or annotated locals, extends/implements clauses (also of an interface of the project), a second package-private class before or after the controller in its file, optional field and constructor, modifiers other than public, annotations and signature on one line, two layouts. Every file is validated with the shipped parser (a rejection aborts the run as a harness bug). Oracle: list of (verb, base+path, body type without blanks, package, class, method) by construction, compared as a multiset with JavaApiApp.AnalysisPath fed by the identifier and full passes as cmd/api.go does (sub-check api) and with coca_reporter/apis.json of `coca analysis` + `coca api -f [-c] [-s] [-a PREFIX] [-r PKG]` (sub-check cli; api.csv must show the entries of apis.json row by row, those under PREFIX with -a); metamorphic clause: the entries of every controller are identical in the whole project, alone, and in random sub-projects with other file orders; sub-check seq: 2-4 scans of the whole project and of sub-projects one after the other in one process without resetting package state: every scan returns the list of the project scanned and no list returned earlier changes; FilterApiByPrefix on the returned list keeps exactly the entries under the prefix, everything for the empty prefix, and does not change the list it is given. Non-trivial = at least one controller with and one without class-level base path in the project; distinct = hash of the description.",
+		"not generated (ambiguous expected value or outside the quantifier): bare class-level @RequestMapping, method-level @RequestMapping without method=, controller annotation after the class-level mapping, nested and local classes, handlers inherited from interfaces, several @RequestBody parameters, path= instead of value=, array-valued paths, several verbs in method={..}, path constants and concatenations, fully qualified annotation names, paths whose Java literal needs an escape (quote, backslash: the expected text would depend on reading the literal or its source text)",
+		"paths with a comma are generated for the sub-checks api and seq only: the sub-check cli also reads api.csv, which coca writes with ',' as column separator and without quoting, and api.csv is not part of the statement",
 		"body type and nothing else is compared modulo white space",
 		"base path and method path are concatenated as written (no slash normalisation): the statement says 'base path followed by the method's path'",
 		"FilterApiByPrefix / `coca api -a PREFIX` (named in the property's anchors) is taken to keep exactly the entries whose URI starts with PREFIX",
